@@ -53,6 +53,9 @@ Close(bytes, ins, jd, seen, frontier) ==
 
 MayReach(bytes) == IF Len(bytes) = 0 THEN {} ELSE Close(bytes, Instrs(bytes), JumpDests(bytes), {0}, {0})
 
+(* The tool steps through the immediate bytes of a PUSH it executed as no-ops: those offsets belong to the PUSH. *)
+WithImmediates(bytes, R) == R \cup {x \in 0..(Len(bytes) - 1) : \E o \in R : x > o /\ x <= o + PushLen(bytes[o + 1])}
+
 (* the storage instructions the code can possibly execute *)
 StorageReach(bytes) == {o \in MayReach(bytes) : bytes[o + 1] \in {SLOAD, SSTORE}}
 ==============================================================================
